@@ -47,6 +47,10 @@ def gen_spec(rng, name, allow_required=False, kinds=('fn',), lists=False,
           'api': rng.choice(['configurable', 'configurable', 'register',
                              'external']) if kind != 'method'
                  else 'configurable', 'module': module}
+  if kind == 'callable_obj':
+    # an instance has no __name__: only external_configurable(obj, name=...)
+    spec['api'] = 'external'
+    spec['regname'] = name
   if lists and params and rng.random() < 0.4:
     chosen = [p['n'] for p in params if rng.random() < 0.5]
     # a signature-level REQUIRED must stay configurable
